@@ -294,6 +294,46 @@ def run(ck: Check):
         ck.notes.append(f"SML short-circuit probe could not run: {e!r}")
     finally:
         shutil.rmtree(root, ignore_errors=True)
+    # relationships a file's own adapter extracts are the model's relationships: inference from naming conventions must not
+    # add a second relationship to a target the model already declares (whatever key the declaration uses)
+    from sidemantic import Relationship
+    from sidemantic.adapters.sidemantic import SidemanticAdapter
+    for fk in (None, "buyer_key", "customer_id"):
+        for nested in (False, True):
+            root = tempfile.mkdtemp(prefix="c13_", dir=os.environ.get("TMPDIR", "/tmp"))
+            try:
+                g1, g2 = SemanticGraph(), SemanticGraph()
+                g1.add_model(Model(name="orders", table="public.orders", primary_key="id",
+                                   dimensions=[Dimension(name="status", type="categorical"), Dimension(name="customer_id", type="categorical"), Dimension(name="buyer_key", type="categorical")],
+                                   metrics=[Metric(name="revenue", agg="sum", sql="amount")],
+                                   relationships=[Relationship(name="customers", type="many_to_one", **({"foreign_key": fk} if fk else {}))]))
+                g2.add_model(Model(name="customers", table="public.customers", primary_key="id", dimensions=[Dimension(name="tier", type="categorical")], metrics=[Metric(name="n", agg="count")]))
+                d1 = os.path.join(root, "a", "b") if nested else root
+                os.makedirs(d1, exist_ok=True)
+                SidemanticAdapter().export(g1, os.path.join(d1, "orders.yml"))
+                adapter("Cube").export(g2, os.path.join(root, "customers.yml"))
+                own = SidemanticAdapter().parse(os.path.join(d1, "orders.yml")).models["orders"]
+                layer = SemanticLayer(auto_register=False)
+                load_from_directory(layer, root)
+                stats["relationship_probes"] += 1
+                for mname in ("orders", "customers"):
+                    lm = layer.graph.models.get(mname)
+                    if lm is None:
+                        continue
+                    names = [r.name for r in lm.relationships]
+                    if len(names) != len(set(names)):
+                        ck.fail_input(f"model {mname} is loaded with two relationships to the same model {sorted(n for n in names if names.count(n) > 1)} (declared foreign key {fk!r})",
+                                      {"declared_foreign_key": fk, "nested": nested, "relationships": [(r.name, r.type, r.foreign_key) for r in lm.relationships]})
+                lo = layer.graph.models.get("orders")
+                if lo is not None:
+                    decl = [(r.name, r.type, r.foreign_key) for r in own.relationships]
+                    if [(r.name, r.type, r.foreign_key) for r in lo.relationships][:len(decl)] != decl:
+                        ck.fail_input("the relationships the file's own adapter extracts are not the loaded model's relationships",
+                                      {"declared_foreign_key": fk, "own": decl, "loaded": [(r.name, r.type, r.foreign_key) for r in lo.relationships]})
+            except Exception as e:  # noqa: BLE001
+                ck.notes.append(f"relationship probe could not run: {e!r}")
+            finally:
+                shutil.rmtree(root, ignore_errors=True)
     # an SML repository alone, at the root and nested one or two levels down, with and without a catalog file: every model its
     # own adapter extracts must be loaded
     from sidemantic.adapters.atscale_sml import AtScaleSMLAdapter
